@@ -205,76 +205,120 @@ ALT_PAIRS = {'quick': 9000, 'thorough': 300000}        # (old, new) pairs whose 
 ZERO = {'quick': 2500, 'thorough': 80000}              # base scripts; each yields 2..4 zero-valued-address cases
 
 FLOORS = {
-    'quick': {'nontrivial': 64000,
-              'monitors': {'M.apply': 79000, 'M.reject': 91000, 'M.apply.brk': 10000, 'M.reject.brk': 20000,
-                           'M.collect': 91000, 'M.triples': 91000, 'M.apply.empty': 13000},
-              'counters': {'cmd:a@0': 9500, 'cmd:a@end': 4600, 'cmd:a@mid': 4900, 'cmd:c1': 10000, 'cmd:cN': 5900,
-                           'cmd:d1': 6600, 'cmd:dN': 3900, 'cmd:c@first': 8300, 'cmd:d@first': 5500, 'cmd:d@last':
-                           6700, 'cmd:c@last': 10000, 'shape:adjacent-hunks': 7600, 'shape:old-empty': 4100,
-                           'shape:new-empty': 3700, 'shape:full-replace': 4800, 'shape:hunks>=2': 10000,
-                           'shape:hunks=3+': 2000, 'reject:truncation': 32000, 'reject:command': 13000, 'mode:str':
-                           37000, 'mode:bytes': 37000, 'src:list': 26000, 'src:iter': 26000, 'src:file': 26000,
-                           'src:disk': 4500, 'brk:apply': 5200, 'brk:apply/tail-is-dot': 2800,
-                           'brk:apply/head-is-dot': 1300, 'brk:apply/break-before-newline': 4300,
-                           'brk:apply/old-line-kept': 1500, 'brk:apply/text-blocks>=2': 870, 'brk:apply/enc:latin-1':
-                           1200, 'brk:apply/enc:utf-8': 3900, 'brk:apply/src:list': 1300, 'brk:apply/src:iter': 1300,
-                           'brk:apply/src:file': 1300, 'brk:apply/src:disk': 1000, 'brk:apply/U+000D': 970,
-                           'brk:apply/U+000B': 1000, 'brk:apply/U+000C': 990, 'brk:apply/U+001C': 970,
-                           'brk:apply/U+001D': 1000, 'brk:apply/U+001E': 1000, 'brk:apply/U+0085': 990,
-                           'brk:apply/U+2028': 1000, 'brk:apply/U+2029': 1000, 'brk:reject': 10000,
-                           'brk:reject/command': 2300, 'brk:reject/truncation': 7800,
-                           'brk:reject/cut-after-tail-dot-line': 1800, 'brk:reject/enc:latin-1': 2000,
-                           'reject-class:break-in-command': 1400, 'reject-class:truncation/no-final-newline': 3900,
-                           'reject:trunc-multi:first': 910, 'reject:trunc-multi:middle': 3100,
-                           'reject:trunc-multi:last': 3100,
-                           'collect:use:list': 29000, 'collect:use:tuple': 29000, 'collect:use:two-pass': 29000,
-                           'collect:src:list': 28000, 'collect:src:iter': 28000, 'collect:src:file': 28000,
-                           'collect:src:disk': 4000, 'collect:mode:str': 45000, 'collect:mode:bytes': 45000,
-                           'collect:patches>=2': 15000, 'collect:different-texts>=2': 18000,
-                           'collect:different-texts>=2/use:list': 6000, 'collect:different-texts>=2/use:tuple': 6000,
-                           'collect:different-texts>=2/use:two-pass': 6000, 'collect:script-list-parsed-twice': 9500,
-                           'empty:apply': 6500, 'empty:mode:str': 6500, 'empty:mode:bytes': 6500,
-                           'empty:old-empty': 1600, 'empty:old-empty/src:list': 480, 'empty:old-empty/src:iter': 480,
-                           'empty:old-empty/src:file': 480, 'empty:old-empty/src:disk': 140,
-                           'empty:old-has-break': 700, 'empty:src:list': 1900, 'empty:src:iter': 1900,
-                           'empty:src:file': 1900, 'empty:src:disk': 580, 'empty:use:list': 4400,
-                           'empty:use:tuple': 4200, 'empty:use:two-pass': 4300}},
-    'thorough': {'nontrivial': 1700000,
-                 'monitors': {'M.apply': 2600000, 'M.reject': 2700000, 'M.apply.brk': 250000, 'M.reject.brk': 480000,
-                              'M.collect': 2700000, 'M.triples': 2700000, 'M.apply.empty': 460000},
-                 'counters': {'cmd:a@0': 310000, 'cmd:a@end': 140000, 'cmd:a@mid': 170000, 'cmd:c1': 330000, 'cmd:cN':
-                              190000, 'cmd:d1': 200000, 'cmd:dN': 130000, 'cmd:c@first': 280000, 'cmd:d@first': 190000,
-                              'cmd:d@last': 230000, 'cmd:c@last': 350000, 'shape:adjacent-hunks': 200000,
-                              'shape:old-empty': 150000, 'shape:new-empty': 140000, 'shape:full-replace': 170000,
-                              'shape:hunks>=2': 310000, 'shape:hunks=3+': 62000, 'reject:truncation': 960000,
-                              'reject:command': 420000, 'mode:str': 1200000, 'mode:bytes': 1200000, 'src:list': 850000,
-                              'src:iter': 850000, 'src:file': 850000, 'src:disk': 100000, 'brk:apply': 120000,
-                              'brk:apply/tail-is-dot': 77000, 'brk:apply/head-is-dot': 35000,
-                              'brk:apply/break-before-newline': 140000, 'brk:apply/old-line-kept': 46000,
-                              'brk:apply/text-blocks>=2': 31000, 'brk:apply/enc:latin-1': 22000, 'brk:apply/enc:utf-8':
-                              100000, 'brk:apply/src:list': 34000, 'brk:apply/src:iter': 35000, 'brk:apply/src:file':
-                              34000, 'brk:apply/src:disk': 23000, 'brk:apply/U+000D': 28000, 'brk:apply/U+000B': 28000,
-                              'brk:apply/U+000C': 28000, 'brk:apply/U+001C': 28000, 'brk:apply/U+001D': 28000,
-                              'brk:apply/U+001E': 28000, 'brk:apply/U+0085': 28000, 'brk:apply/U+2028': 28000,
-                              'brk:apply/U+2029': 28000, 'brk:reject': 240000, 'brk:reject/command': 63000,
-                              'brk:reject/truncation': 170000, 'brk:reject/cut-after-tail-dot-line': 36000,
-                              'brk:reject/enc:latin-1': 44000, 'reject-class:break-in-command': 40000,
-                              'reject-class:truncation/no-final-newline': 110000, 'reject:trunc-multi:first': 29000,
-                              'reject:trunc-multi:middle': 98000, 'reject:trunc-multi:last': 98000,
-                              'collect:use:list': 900000, 'collect:use:tuple': 900000, 'collect:use:two-pass': 900000,
-                              'collect:src:list': 850000, 'collect:src:iter': 850000, 'collect:src:file': 850000,
-                              'collect:src:disk': 100000, 'collect:mode:str': 1300000, 'collect:mode:bytes': 1300000,
-                              'collect:patches>=2': 330000, 'collect:different-texts>=2': 410000,
-                              'collect:different-texts>=2/use:list': 130000,
-                              'collect:different-texts>=2/use:tuple': 130000,
-                              'collect:different-texts>=2/use:two-pass': 130000,
-                              'collect:script-list-parsed-twice': 280000,
-                              'empty:apply': 230000, 'empty:mode:str': 230000, 'empty:mode:bytes': 230000,
-                              'empty:old-empty': 59000, 'empty:old-empty/src:list': 18000,
-                              'empty:old-empty/src:iter': 18000, 'empty:old-empty/src:file': 18000,
-                              'empty:old-empty/src:disk': 4000, 'empty:old-has-break': 22000, 'empty:src:list': 71000,
-                              'empty:src:iter': 71000, 'empty:src:file': 71000, 'empty:src:disk': 17000,
-                              'empty:use:list': 150000, 'empty:use:tuple': 150000, 'empty:use:two-pass': 150000}},
+    'quick': {'nontrivial': 72000,
+        'monitors': {'M.apply': 90000, 'M.reject': 96000, 'M.apply.brk': 11000, 'M.reject.brk': 20000,
+                     'M.collect': 100000, 'M.triples': 100000, 'M.apply.empty': 13000, 'M.apply.alt': 15000,
+                     'M.reject.zero': 6700},
+        'counters': {'cmd:a@0': 11000, 'cmd:a@end': 5600, 'cmd:a@mid': 6300, 'cmd:c1': 11000, 'cmd:cN': 8400,
+                     'cmd:d1': 7000, 'cmd:dN': 4600, 'cmd:c@first': 10000, 'cmd:d@first': 6000, 'cmd:d@last': 7300,
+                     'cmd:c@last': 12000, 'shape:adjacent-hunks': 10000, 'shape:old-empty': 5200,
+                     'shape:new-empty': 4800, 'shape:full-replace': 5300, 'shape:hunks>=2': 12000,
+                     'shape:hunks=3+': 2800, 'reject:truncation': 32000, 'reject:command': 15000, 'mode:str': 45000,
+                     'mode:bytes': 45000, 'src:list': 28000, 'src:iter': 28000, 'src:file': 28000, 'src:disk': 5800,
+                     'brk:apply': 5600, 'brk:apply/tail-is-dot': 3000, 'brk:apply/head-is-dot': 1400,
+                     'brk:apply/break-before-newline': 4800, 'brk:apply/old-line-kept': 1700,
+                     'brk:apply/text-blocks>=2': 1000, 'brk:apply/enc:latin-1': 1300, 'brk:apply/enc:utf-8': 4300,
+                     'brk:apply/src:list': 1400, 'brk:apply/src:iter': 1400, 'brk:apply/src:file': 1400,
+                     'brk:apply/src:disk': 1000, 'brk:apply/U+000D': 1000, 'brk:apply/U+000B': 1000,
+                     'brk:apply/U+000C': 1000, 'brk:apply/U+001C': 1000, 'brk:apply/U+001D': 1000,
+                     'brk:apply/U+001E': 1000, 'brk:apply/U+0085': 1000, 'brk:apply/U+2028': 1000,
+                     'brk:apply/U+2029': 1100, 'brk:reject': 10000, 'brk:reject/command': 2300,
+                     'brk:reject/truncation': 7800, 'brk:reject/cut-after-tail-dot-line': 1800,
+                     'brk:reject/enc:latin-1': 2000, 'reject-class:break-in-command': 1400,
+                     'reject-class:truncation/no-final-newline': 3900, 'reject:trunc-multi:first': 910,
+                     'reject:trunc-multi:middle': 3100, 'reject:trunc-multi:last': 3100, 'collect:use:list': 34000,
+                     'collect:use:tuple': 34000, 'collect:use:two-pass': 34000, 'collect:src:list': 31000,
+                     'collect:src:iter': 31000, 'collect:src:file': 31000, 'collect:src:disk': 6100,
+                     'collect:mode:str': 51000, 'collect:mode:bytes': 51000, 'collect:patches>=2': 18000,
+                     'collect:different-texts>=2': 20000, 'collect:different-texts>=2/use:list': 6900,
+                     'collect:different-texts>=2/use:tuple': 6900, 'collect:different-texts>=2/use:two-pass': 6900,
+                     'collect:script-list-parsed-twice': 10000, 'empty:apply': 6600, 'empty:mode:str': 6600,
+                     'empty:mode:bytes': 6600, 'empty:old-empty': 1700, 'empty:old-empty/src:list': 490,
+                     'empty:old-empty/src:iter': 520, 'empty:old-empty/src:file': 500, 'empty:old-empty/src:disk': 140,
+                     'empty:old-has-break': 710, 'empty:src:list': 1900, 'empty:src:iter': 1900, 'empty:src:file': 1900,
+                     'empty:src:disk': 590, 'empty:use:list': 4400, 'empty:use:tuple': 4300, 'empty:use:two-pass': 4400,
+                     'alt:N,N-range': 1100, 'alt:a-empty': 760, 'alt:a-empty/@0': 240, 'alt:a-empty/@end': 140,
+                     'alt:a-empty/@mid': 370, 'alt:all-removals-as-c': 1400, 'alt:apply': 7500, 'alt:c-empty': 1600,
+                     'alt:c-empty/@last': 750, 'alt:c-empty/range': 560, 'alt:c-empty/single': 1000,
+                     'alt:c-identity': 790, 'alt:collected': 15000, 'alt:leading-zero': 3200,
+                     'alt:leading-zero/00': 840, 'alt:leading-zero/a': 1500, 'alt:leading-zero/c': 1700,
+                     'alt:leading-zero/d': 530, 'alt:mode:bytes': 7500, 'alt:mode:str': 7500,
+                     'alt:no-final-newline/command': 250, 'alt:no-final-newline/command/src:disk': 38,
+                     'alt:no-final-newline/command/src:file': 53, 'alt:no-final-newline/command/src:iter': 53,
+                     'alt:no-final-newline/command/src:list': 47, 'alt:no-final-newline/command/src:tuple': 48,
+                     'alt:no-final-newline/dot': 1800, 'alt:no-final-newline/dot/src:disk': 290,
+                     'alt:no-final-newline/dot/src:file': 390, 'alt:no-final-newline/dot/src:iter': 380,
+                     'alt:no-final-newline/dot/src:list': 380, 'alt:no-final-newline/dot/src:tuple': 380,
+                     'alt:same-place/append-then-remove': 560, 'alt:same-place/remove-then-append': 2600,
+                     'alt:src:disk': 920, 'alt:src:file': 1800, 'alt:src:iter': 1800, 'alt:src:list': 1700,
+                     'alt:src:tuple': 1100, 'alt:unmerged/changes': 170, 'alt:unmerged/removals': 190,
+                     'alt:via:alt': 5500, 'reject-class:missing-number/zero': 490,
+                     'reject-class:range-on-append/zero-first': 590, 'reject-class:range-on-append/zero-second': 630,
+                     'reject-class:three-numbers/zero': 740, 'zero:malformed': 2400, 'zero:malformed/src:file': 810,
+                     'zero:malformed/src:iter': 800, 'zero:malformed/src:list': 820, 'zero:second-on-c': 540,
+                     'zero:second-on-cd': 890, 'zero:second-on-cd/no-analog': 470, 'zero:second-on-cd/spelled:0': 440,
+                     'zero:second-on-cd/spelled:00': 210, 'zero:second-on-cd/spelled:000': 210,
+                     'zero:second-on-cd/src:file': 290, 'zero:second-on-cd/src:iter': 290,
+                     'zero:second-on-cd/src:list': 290, 'zero:second-on-cd/with-analog': 410, 'zero:second-on-d': 340}},
+    'thorough': {'nontrivial': 1900000,
+        'monitors': {'M.apply': 2900000, 'M.reject': 2900000, 'M.apply.brk': 280000, 'M.reject.brk': 480000,
+                     'M.collect': 3000000, 'M.triples': 3000000, 'M.apply.empty': 470000, 'M.apply.alt': 450000,
+                     'M.reject.zero': 210000},
+        'counters': {'cmd:a@0': 360000, 'cmd:a@end': 170000, 'cmd:a@mid': 210000, 'cmd:c1': 380000, 'cmd:cN': 260000,
+                     'cmd:d1': 220000, 'cmd:dN': 150000, 'cmd:c@first': 330000, 'cmd:d@first': 200000,
+                     'cmd:d@last': 250000, 'cmd:c@last': 410000, 'shape:adjacent-hunks': 290000,
+                     'shape:old-empty': 180000, 'shape:new-empty': 170000, 'shape:full-replace': 180000,
+                     'shape:hunks>=2': 390000, 'shape:hunks=3+': 90000, 'reject:truncation': 960000,
+                     'reject:command': 500000, 'mode:str': 1400000, 'mode:bytes': 1400000, 'src:list': 930000,
+                     'src:iter': 930000, 'src:file': 930000, 'src:disk': 130000, 'brk:apply': 140000,
+                     'brk:apply/tail-is-dot': 85000, 'brk:apply/head-is-dot': 39000,
+                     'brk:apply/break-before-newline': 160000, 'brk:apply/old-line-kept': 52000,
+                     'brk:apply/text-blocks>=2': 35000, 'brk:apply/enc:latin-1': 25000, 'brk:apply/enc:utf-8': 110000,
+                     'brk:apply/src:list': 37000, 'brk:apply/src:iter': 37000, 'brk:apply/src:file': 37000,
+                     'brk:apply/src:disk': 25000, 'brk:apply/U+000D': 31000, 'brk:apply/U+000B': 31000,
+                     'brk:apply/U+000C': 31000, 'brk:apply/U+001C': 31000, 'brk:apply/U+001D': 31000,
+                     'brk:apply/U+001E': 31000, 'brk:apply/U+0085': 31000, 'brk:apply/U+2028': 31000,
+                     'brk:apply/U+2029': 31000, 'brk:reject': 240000, 'brk:reject/command': 63000,
+                     'brk:reject/truncation': 170000, 'brk:reject/cut-after-tail-dot-line': 36000,
+                     'brk:reject/enc:latin-1': 44000, 'reject-class:break-in-command': 40000,
+                     'reject-class:truncation/no-final-newline': 110000, 'reject:trunc-multi:first': 29000,
+                     'reject:trunc-multi:middle': 98000, 'reject:trunc-multi:last': 98000, 'collect:use:list': 1000000,
+                     'collect:use:tuple': 1000000, 'collect:use:two-pass': 1000000, 'collect:src:list': 930000,
+                     'collect:src:iter': 930000, 'collect:src:file': 930000, 'collect:src:disk': 150000,
+                     'collect:mode:str': 1500000, 'collect:mode:bytes': 1500000, 'collect:patches>=2': 410000,
+                     'collect:different-texts>=2': 480000, 'collect:different-texts>=2/use:list': 160000,
+                     'collect:different-texts>=2/use:tuple': 160000, 'collect:different-texts>=2/use:two-pass': 160000,
+                     'collect:script-list-parsed-twice': 310000, 'empty:apply': 230000, 'empty:mode:str': 230000,
+                     'empty:mode:bytes': 230000, 'empty:old-empty': 61000, 'empty:old-empty/src:list': 18000,
+                     'empty:old-empty/src:iter': 18000, 'empty:old-empty/src:file': 18000,
+                     'empty:old-empty/src:disk': 4300, 'empty:old-has-break': 22000, 'empty:src:list': 72000,
+                     'empty:src:iter': 72000, 'empty:src:file': 72000, 'empty:src:disk': 17000,
+                     'empty:use:list': 150000, 'empty:use:tuple': 150000, 'empty:use:two-pass': 150000,
+                     'alt:N,N-range': 31000, 'alt:a-empty': 23000, 'alt:a-empty/@0': 7300, 'alt:a-empty/@end': 4300,
+                     'alt:a-empty/@mid': 12000, 'alt:all-removals-as-c': 40000, 'alt:apply': 220000,
+                     'alt:c-empty': 44000, 'alt:c-empty/@last': 22000, 'alt:c-empty/range': 13000,
+                     'alt:c-empty/single': 32000, 'alt:c-identity': 22000, 'alt:collected': 460000,
+                     'alt:leading-zero': 84000, 'alt:leading-zero/00': 27000, 'alt:leading-zero/a': 52000,
+                     'alt:leading-zero/c': 42000, 'alt:leading-zero/d': 13000, 'alt:mode:bytes': 220000,
+                     'alt:mode:str': 220000, 'alt:no-final-newline/command': 5300,
+                     'alt:no-final-newline/command/src:disk': 750, 'alt:no-final-newline/command/src:file': 1100,
+                     'alt:no-final-newline/command/src:iter': 1100, 'alt:no-final-newline/command/src:list': 1100,
+                     'alt:no-final-newline/command/src:tuple': 1100, 'alt:no-final-newline/dot': 49000,
+                     'alt:no-final-newline/dot/src:disk': 7100, 'alt:no-final-newline/dot/src:file': 10000,
+                     'alt:no-final-newline/dot/src:iter': 10000, 'alt:no-final-newline/dot/src:list': 10000,
+                     'alt:no-final-newline/dot/src:tuple': 10000, 'alt:same-place/append-then-remove': 17000,
+                     'alt:same-place/remove-then-append': 97000, 'alt:src:disk': 23000, 'alt:src:file': 57000,
+                     'alt:src:iter': 57000, 'alt:src:list': 57000, 'alt:src:tuple': 31000, 'alt:unmerged/changes': 6200,
+                     'alt:unmerged/removals': 5700, 'alt:via:alt': 140000, 'reject-class:missing-number/zero': 15000,
+                     'reject-class:range-on-append/zero-first': 19000,
+                     'reject-class:range-on-append/zero-second': 19000, 'reject-class:three-numbers/zero': 24000,
+                     'zero:malformed': 79000, 'zero:malformed/src:file': 26000, 'zero:malformed/src:iter': 26000,
+                     'zero:malformed/src:list': 26000, 'zero:second-on-c': 16000, 'zero:second-on-cd': 27000,
+                     'zero:second-on-cd/no-analog': 15000, 'zero:second-on-cd/spelled:0': 13000,
+                     'zero:second-on-cd/spelled:00': 6800, 'zero:second-on-cd/spelled:000': 6800,
+                     'zero:second-on-cd/src:file': 9200, 'zero:second-on-cd/src:iter': 9100,
+                     'zero:second-on-cd/src:list': 9200, 'zero:second-on-cd/with-analog': 12000,
+                     'zero:second-on-d': 11000}},
 }
 DIFFE_FLOOR = {'quick': 2700, 'thorough': 145000}      # only demanded when `diff` is installed
 DIFFE_BRK_FLOOR = {'quick': 160, 'thorough': 8500}     # ... of which scripts whose text blocks carry an embedded break
